@@ -58,7 +58,13 @@ func setupTree(c Case) (*Eng, error) {
 		files[k] = tplOf(v.(string))
 	}
 	debug, _ := c["debug"].(bool)
-	eng, err := newEngine(EngineSpec{Files: files, Debug: debug})
+	// "ratelimit": the engine carries a render limit, as the module's default configuration does (8): a load that fails inside a
+	// render must give its slot back like every other way out, or the engine stops answering once the repaired file is there
+	rl := 0
+	if v, ok := c["ratelimit"].(float64); ok {
+		rl = int(v)
+	}
+	eng, err := newEngine(EngineSpec{Files: files, Debug: debug, RateLimit: rl})
 	if err != nil {
 		return nil, err
 	}
@@ -89,7 +95,13 @@ func runLoadSeq(c Case) interface{} {
 				results = append(results, "error")
 			}
 		case "render":
-			results = append(results, renderResult(eng.Render(context.Background(), op["name"].(string), nil)))
+			ctx := context.Background()
+			if rl, ok := c["ratelimit"].(float64); ok && rl > 0 {
+				var cancel context.CancelFunc
+				ctx, cancel = context.WithTimeout(ctx, 2*time.Second) // a render that cannot get a slot ends here instead of hanging
+				defer cancel()
+			}
+			results = append(results, renderResult(eng.Render(ctx, op["name"].(string), nil)))
 		case "write":
 			// "mtime": how the new content arrives - "" an ordinary edit (now), "keep" the file keeps the modification time it
 			// had (cp -p, rsync -t, a restore tool), "old" an older file is moved in (mv page.bak page, tar x, git checkout of a tag)
@@ -403,7 +415,11 @@ func genC10(r *Rng, n int, tier string, emit func(Case)) {
 				ops = append(ops, J{"op": "render", "name": p})
 				bucket = fmt.Sprintf("seq-broken/debug=%t", debug)
 			}
-			emit(Case{"kind": "loadseq", "debug": debug, "files": files, "ops": ops, "bucket": bucket, "nops": len(ops)})
+			cs := Case{"kind": "loadseq", "debug": debug, "files": files, "ops": ops, "bucket": bucket, "nops": len(ops)}
+			if rr.Chance(1, 3) {
+				cs["ratelimit"] = rr.Range(1, 2)
+			}
+			emit(cs)
 		} else {
 			// concurrent first renders (and optionally an explicit load) on a cold engine
 			k := rr.Range(2, 3)
